@@ -10,6 +10,7 @@ import (
 	"os"
 	"path/filepath"
 	"strconv"
+	"strings"
 	"sync"
 	"time"
 
@@ -144,11 +145,40 @@ func pendingOf(env *environment.Environment, rec *Recorder) []PendObs {
 	return out
 }
 
+// parseTermX reads a scripted termination report "x:<exit code>:<voluntary 0|1>:<FINISHED|FAILED|KILLED>".
+func parseTermX(s string) (code int, vol bool, st mesos.TaskState, fin int, ok bool) {
+	parts := strings.Split(s, ":")
+	if len(parts) != 4 || parts[0] != "x" {
+		return
+	}
+	code, err := strconv.Atoi(parts[1])
+	if err != nil {
+		return
+	}
+	vol = parts[2] == "1"
+	switch parts[3] {
+	case "FINISHED":
+		st, fin = mesos.TASK_FINISHED, 0
+	case "FAILED":
+		st, fin = mesos.TASK_FAILED, 1
+	case "KILLED":
+		st, fin = mesos.TASK_KILLED, 2
+	default:
+		return
+	}
+	ok = true
+	return
+}
+
 func termEvent(hookId int, exit int, voluntary bool) *event.BasicTaskTerminated {
 	st := mesos.TASK_FINISHED
 	if exit != 0 || !voluntary {
 		st = mesos.TASK_FAILED
 	}
+	return termEventFull(hookId, exit, voluntary, st)
+}
+
+func termEventFull(hookId int, exit int, voluntary bool, st mesos.TaskState) *event.BasicTaskTerminated {
 	e := &event.BasicTaskTerminated{ExitCode: exit, VoluntaryTermination: voluntary, FinalMesosState: st}
 	e.Type = occpb.DeviceEventType_BASIC_TASK_TERMINATED
 	e.Origin.TaskId = mesos.TaskID{Value: taskId(hookId)}
@@ -208,6 +238,10 @@ func (b *bare) run(in Input) (obs Obs) {
 					late = append(late, hid)
 				case "okslow":
 					okslow = append(okslow, hid)
+				default:
+					if code, vol, st, _, ok := parseTermX(op.TaskOut[strconv.Itoa(hid)]); ok {
+						env.VerifC08DeliverEvent(termEventFull(hid, code, vol, st), 3000)
+					}
 				}
 			}
 			if len(late) > 0 || len(okslow) > 0 {
